@@ -50,6 +50,14 @@ impl Frac {
     }
 }
 
+#[cfg(feature = "verif_hooks")]
+impl Frac {
+    /// Number of whole codewords, rounded up.
+    pub(super) fn verif_ceil_codewords(self) -> usize {
+        (self.ceil().0 / DENUM) as usize
+    }
+}
+
 impl From<C> for Frac {
     fn from(c: C) -> Frac {
         Frac::new(c, 1)
